@@ -430,8 +430,18 @@ def real_item_text(block):
 
 
 def _binds_prev(ins_text):
+    """When new tokens appeared between the two neighbours of an insertion: does it stay with the token before it?
+    Closure contracts (`-> (o: T) ensures .. {`) follow the closure's parameters; closers of ghost-naming wrappers
+    (`; proof { .. } __v }`) follow the wrapped expression.  Openers of wrappers (`{ let __v =`, `= { let __v`) and loop
+    labels (`it:`) precede the expression they wrap and stay with the token after them."""
     s = ins_text.strip()
-    return s.startswith('->') or s.endswith('{') or s.endswith('(') or s.endswith('=') or s.endswith(':')
+    if s.startswith('->'):
+        return True
+    if s.startswith(';') or s.startswith('}') or s.startswith(')'):
+        return True
+    if s.endswith('=') or s.endswith(':') or s.endswith('= {') or re.search(r'\{\s*let\s+(mut\s+)?\w+\s*$', s):
+        return False
+    return s.endswith('{') or s.endswith('(')
 
 
 def merge(chunks, real_text):
